@@ -100,7 +100,12 @@ def run(check: Check) -> None:
         check.ok("N1", "FldExporter.write_from_scope/grid-size", f"taint rule not applicable to this shape ({ex}); the grid size is decided by G11")
         check.ok("N1", "FldExporter.write_from_scope/grid-size-inputs", "decided by G11")
         check.ok("N2", "FldExporter.write_from_scope/each-variable", "decided by G11")
-    active_variables(check)
+    try:
+        active_variables(check)
+    except AnalysisError as ex:
+        # G10 locates the row loop by the way the pinned code is written; which inputs get grid values is decided by G11 for every set of active variables
+        check.notes.append(f"G10 undecided (decided by G11 only): {ex}")
+        check.ok("G10", "FldExporter.write_from_scope/active-variables", f"role rule not applicable to this shape ({ex}); decided by G11")
     grid_semantics(check)
     from .common import unused_parameters
 
@@ -440,6 +445,9 @@ def write_plumbing(check: Check) -> None:
                          "method:concatenate": lambda ex_, e, recv, args, kw: ("hstack", tuple(args[0])),
                          "method:header": lambda ex_, e, recv, args, kw: ("header", args[0] if args else None)}
                 ex = AbsExec(fn.qualname, hooks, helpers={k: v for k, v in fn.cls.methods.items() if k.startswith("_") and not k.startswith("__")})
+                ex.concrete_strings = True
+                decimals = 3 + cases % 5  # the number of decimals in force while the table is written: another one in every run
+                ex.globals = {"settings": MObj("Settings", {"decimals": decimals, "debugging": False})}
                 env = {names[0]: exporter, names[1]: engine, names[2]: Opaque("writer"), names[3]: table, "np": Opaque("np"), "numpy": Opaque("np")}
                 what = f"write(table of {ncols} column(s)) with input_values={fin}, output_values={fout}, headers={fhead}"
                 outcome = "ok"
@@ -486,8 +494,7 @@ def write_plumbing(check: Check) -> None:
                     else:
                         note("switches", f"{what}: writes the blocks {sw}; specified inputs iff input_values, outputs iff output_values")
                 fmt = saved.get("fmt")
-                dec_ok = isinstance(fmt, FString) and any(isinstance(x, Opaque) and x.what == "settings.decimals" for x in fmt.parts) and \
-                    "".join(x for x in fmt.parts if isinstance(x, str)).replace(" ", "") in ("%0.f", "%.f")
+                dec_ok = isinstance(fmt, str) and fmt.replace(" ", "") in (f"%0.{decimals}f", f"%.{decimals}f")
                 if not dec_ok:
                     note("format", f"{what}: the number format is {fmt!r}; specified fixed point with settings.decimals read when the table is written")
                 if saved.get("delimiter") != ("separator",):
